@@ -23,6 +23,7 @@ type HBCase struct {
 	EveryMs int    `json:"every_ms"`
 	TCPMux  bool   `json:"tcpmux"`
 	Timeout int    `json:"timeout"`
+	Busy    bool   `json:"busy"` // the session also sends a CloseProxy for a name it does not own with every heartbeat: other traffic is no heartbeat
 }
 
 func genHB(t *rapid.T) HBCase {
@@ -33,6 +34,7 @@ func genHB(t *rapid.T) HBCase {
 		bad = append(oidcBadKeys, "othersubject")
 	}
 	c.Key = rapid.SampledFrom(append([]string{"valid"}, bad...)).Draw(t, "key")
+	c.Busy = rapid.Bool().Draw(t, "busy")
 	return c
 }
 
@@ -68,6 +70,9 @@ func runHB(c HBCase) error {
 		time.Sleep(time.Duration(c.EveryMs) * time.Millisecond)
 		key, pts := makeKey(cc, c.Key)
 		_ = sc.Send(&msg.Ping{PrivilegeKey: key, Timestamp: pts})
+		if c.Busy {
+			_ = sc.Send(&msg.CloseProxy{ProxyName: "not-mine"})
+		}
 		if !sc.ControlAlive() {
 			break
 		}
@@ -78,7 +83,7 @@ func runHB(c HBCase) error {
 		return fmt.Errorf("session fed valid heartbeats every %dms was torn down after %v (timeout %ds)", c.EveryMs, died, c.Timeout)
 	}
 	if !valid && alive {
-		return fmt.Errorf("HeartBeats scope on: %v of heartbeats with %s key every %dms kept the session alive (heartbeatTimeout %ds)", observe, c.Key, c.EveryMs, c.Timeout)
+		return fmt.Errorf("HeartBeats scope on: %v of heartbeats with %s key every %dms kept the session alive (heartbeatTimeout %ds, other control messages in between: %v)", observe, c.Key, c.EveryMs, c.Timeout, c.Busy)
 	}
 	return nil
 }
